@@ -1,6 +1,6 @@
 """C11 - human-readable message text round-trips to the same datagram body; safe mode never evaluates.
 
-Model: coq/theories/Text/HumanText.v (framing of the text format, literal syntax abstract).
+Model: coq/theories/Text/HumanText.v (framing of the text format, literal syntax abstract) and Text/PyLiteral.v (concrete literals of str/bytes/int).
 Suites:
   classes : the model's character classes (is_space over all of Unicode, is_word below U+0100) vs Python's re/str
   parser  : the extracted from_human (symbolic oracles) vs the real from_human_string (the same oracles patched in)
@@ -9,6 +9,11 @@ Suites:
             tables, template hints) -> (i) the extracted to_human on the translated presentation gives the same text,
             (ii) the hypotheses of the round-trip theorem hold for every rendered value, (iii) the real
             from_human_string(safe=True) gives a message that serializes to the same body (impl-level oracle).
+  literals: the extracted concrete renderer / reader (Text/PyLiteral.v: repr of str/bytes/int, HippoPrettyPrinter/pprint wrapping,
+            ast.literal_eval fragment) vs the real repr / HippoPrettyPrinter(width=100).pformat / ast.literal_eval: every code point,
+            exhaustive small alphabets, width and newline-count boundaries, random long values, mutated literal texts
+  cmsg    : directly built messages with str/bytes/int values: extracted to_human/from_human instantiated with the concrete literal
+            model vs to_human_string(beautify=False)/from_human_string(safe=True), plus mutated texts with the real ast.literal_eval
 """
 import collections
 import json
@@ -23,16 +28,32 @@ from harness.common.framework import CorrResult, VERIF
 
 PROP_ID = "C11"
 COQ_PROPS = "theories/Props/C11.v"
+COQ_EXTRA = ["gen/C11_printable_gen.v"]
 EXTRACT = ("theories/Extract/ExC11.v", "c11_driver.ml")
 TRUSTED = [
-    "PARTIAL property: only the framing of the text format is proved (Text/HumanText.v). repr, pprint/HippoPrettyPrinter, "
-    "ast.literal_eval, float(), UUID(), the subfield (de)serializers and re are oracles: the theorem assumes, per rendered "
-    "value, the hypotheses lines_ok/var_ok of HumanTextProofs.v (every physical line stripped is non-empty and does not end "
-    "in a backslash, no newline inside a line, the implicit concatenation of the stripped lines reads back to the value "
-    "through the parser's own sniffers, a trailing inline comment is ignored, the packer - run after the whole text is read, on the block "
-    "with None placeholders for the packed values not yet restored - re-encodes the pretty value); each hypothesis is checked on every generated value by the 'wire' suite",
-    "modelled by hand: HumanMessageSerializer.from_human_string / to_human_string / _format_var / _multi_line_pformat "
-    "(text = list of code points; exceptions = OErr; Python dict insertion order = association lists)",
+    "PARTIAL property. Proved for ALL inputs: the framing of the text format (Text/HumanText.v) and - new - the literal syntax of str / bytes / "
+    "int values in plain form (Text/PyLiteral.v): C11_literal_value_roundtrip (every physical line of what _format_var shows is newline-free, "
+    "non-blank, does not end in a backslash, does not start with '[' or '#'; the stripped concatenation is not taken for a replacement token / "
+    "vector / UUID; the literal reader returns the value) and C11_text_roundtrip_concrete (from_human (to_human m) = m for every message of such "
+    "values with NO hypothesis about values; remaining premises are structural: names are non-empty words, block names and the variable names of a "
+    "block are distinct, flags < 2048). Still under the abstract per-value hypotheses var_ok (checked on every generated value by the 'wire' "
+    "suite, not proved): packed (=|) forms incl. their inline '#orig' comment and the subfield (de)serializers, uuid / vector / float / bool / None "
+    "values, replacement tokens, beautify-only choices (hex, [[AGENT_ID]]); C11_text_roundtrip_mixed states exactly this split (cvar_ok)",
+    "modelled by hand from CPython 3.12 and tied by the 'python literals' / 'concrete messages' suites on every run: unicode_repr, bytes_repr, "
+    "int repr, pprint.PrettyPrinter._format/_pprint_str/_pprint_bytes/_wrap_bytes_repr at width 100 level 1, str.splitlines boundaries, the "
+    "regex whitespace class, and ast.literal_eval on the fragment: decimal ints with optional minus, str and bytes literals in single or double "
+    "quotes (prefix none or b/B; escapes of backslash, both quotes, n r t a b f v, xHH, uHHHH, UHHHHHHHH), adjacent-literal concatenation, "
+    "parentheses, spaces/tabs, trailing comment; CPython limits modelled: 200 nested parentheses, 4300 digits. The reader model is a sound "
+    "under-approximation: outside the fragment (other prefixes, triple quotes, octal / named / unknown escapes, hex/octal/binary/underscore ints, "
+    "unary plus, minus before a parenthesis, form feed / CR between tokens) it answers None where literal_eval may answer; such texts are counted "
+    "('outside-fragment'), every other difference is a disagreement",
+    "oracle: str.isprintable is the Section variable [printable] of the literal theorems; the only fact assumed about it (no surrogate code point "
+    "is printable) is an explicit premise and is checked over all 0x110000 code points on every run; the extracted model runs with the "
+    "interpreter's own table",
+    "domain of the literal theorems (wf_val): str = code points < 0x110000 (lone surrogates included), bytes < 256, ints whose decimal text has at "
+    "most 4300 digits (beyond that CPython's repr itself raises)",
+    "modelled by hand: HumanMessageSerializer.from_human_string / to_human_string / _format_var / _multi_line_pformat and "
+    "HippoPrettyPrinter._str_format (text = list of code points; exceptions = OErr/None; Python dict insertion order = association lists)",
     "regex word class is exact below U+0100 only; code points from U+0100 up are treated as non-word by the model and the "
     "correspondence texts use only characters whose class is verified against re on every run; str.upper() of the direction "
     "token is modelled for ASCII only; packed values with a non-finite float or whose bytes are not a fixpoint of the "
@@ -124,7 +145,7 @@ class Sym:
 
 
 def show_s(s: str) -> str:
-    return ".".join(str(ord(c)) for c in s)
+    return ".".join(map(str, map(ord, s)))
 
 
 _FLOAT_RE = re.compile(r"[+-]?(\d+(\.\d*)?|\.\d+)([eE][+-]?\d+)?", re.ASCII)
@@ -1053,12 +1074,717 @@ def suite_wire(ctx, seeds_out):
     return res
 
 
+# --------------------------------------------------------------------------- concrete literal model (Text/PyLiteral.v)
+
+ALPHA_S = ["'", '"', "\\", "\n", "\0", "\x7f", "\x80", "\xff", "\U0001F600", "a", " "]
+ALPHA_B = [39, 34, 92, 10, 0, 0x7f, 0x80, 0xff, 97, 32]
+
+
+def printable_ranges():
+    """[lo, hi) ranges of str.isprintable over every code point"""
+    out, lo = [], None
+    for c in range(0x110000):
+        pr = chr(c).isprintable()
+        if pr and lo is None:
+            lo = c
+        elif not pr and lo is not None:
+            out += [lo, c]
+            lo = None
+    if lo is not None:
+        out += [lo, 0x110000]
+    return out
+
+
+def enc_val(v) -> str:
+    if isinstance(v, str):
+        return "s " + " ".join(str(ord(c)) for c in v)
+    if isinstance(v, bytes):
+        return "b " + " ".join(str(c) for c in v)
+    return "i %d %s" % (1 if v < 0 else 0, " ".join(bin(abs(v))[2:]))
+
+
+def show_cval(v) -> str:
+    """canonical form of a value, as the driver's show_pval prints it"""
+    if isinstance(v, Sym):
+        return v.s
+    if type(v) is str:
+        return "S:" + show_s(v)
+    if isinstance(v, bytes):
+        return "B:" + ".".join(str(c) for c in v)
+    if type(v) is int:
+        return "I:" + ("-" if v < 0 else "") + bin(abs(v))[2:]
+    if v is None:
+        return "N"
+    if isinstance(v, tuple) and all(isinstance(x, _FloatTok) for x in v):
+        return "O:1:" + "/".join(show_s(x.src) for x in v)
+    return "?:" + type(v).__name__
+
+
+def real_lines(im, v, ser: bool):
+    """the physical lines _format_var feeds to the continuation writer for a plain value (beautify off)"""
+    if isinstance(v, (str, bytes)) and not ser:
+        return im.PP(width=100).pformat(v).split("\n")
+    return repr(v).split("\n")
+
+
+def real_literal_eval(text: str):
+    """('ok', value) | ('exc', name)"""
+    import ast
+    import warnings
+    with warnings.catch_warnings():
+        warnings.simplefilter("ignore")
+        try:
+            return "ok", ast.literal_eval(text)
+        except BaseException as e:  # noqa
+            if isinstance(e, (KeyboardInterrupt, SystemExit)):
+                raise
+            return "exc", type(e).__name__
+
+
+_ESC_OK = re.compile(r"\\(?:[\\'\"nrtabfv]|x[0-9a-fA-F]{2}|u[0-9a-fA-F]{4}|U[0-9a-fA-F]{8})")
+_STR_TOK = re.compile("([A-Za-z]*)(" + "'" * 3 + "|" + '"' * 3 + "|'|\")")
+
+
+def outside_fragment(text: str):
+    """why a text CPython accepts lies outside the literal fragment the model reads (None: it is inside)"""
+    import io
+    import tokenize
+    try:
+        toks = list(tokenize.generate_tokens(io.StringIO(text).readline))
+    except Exception as e:
+        return "untokenizable:" + type(e).__name__
+    rest = list(text)
+    depth = 0
+    for i, t in enumerate(toks):
+        if t.type == tokenize.STRING:
+            m = _STR_TOK.match(t.string)
+            if not m:
+                return "string-shape"
+            if m.group(1).lower() not in ("", "b"):
+                return "string-prefix"
+            if len(m.group(2)) == 3:
+                return "triple-quoted"
+            body = t.string[len(m.group(0)):-1]
+            isb = m.group(1) != ""
+            j = 0
+            while j < len(body):
+                if body[j] == "\\":
+                    mm = _ESC_OK.match(body, j)
+                    if not mm or (isb and body[j + 1] in "uU"):
+                        return "escape"
+                    j = mm.end()
+                else:
+                    j += 1
+            if t.start[0] == t.end[0] == 1:
+                for k in range(t.start[1], min(t.end[1], len(rest))):
+                    rest[k] = "x"
+        elif t.type == tokenize.NUMBER:
+            if not re.fullmatch(r"[0-9]+", t.string):
+                return "number-form"
+        elif t.type == tokenize.NAME:
+            return "name"
+        elif t.type == tokenize.OP:
+            if t.string == "+":
+                return "plus"
+            if t.string == "-":
+                nxt = toks[i + 1] if i + 1 < len(toks) else None
+                if nxt is None or nxt.type != tokenize.NUMBER:
+                    return "minus-before-non-number"
+            if t.string == "(":
+                depth += 1
+                if depth > 200:
+                    return "nesting"
+            if t.string == ")":
+                depth -= 1
+    if any(c in "\r\n\x0c" for c in rest):
+        return "whitespace"
+    return None
+
+
+def gen_values(rng, pick):
+    """yields (kind, value) for the value-level suites; the 'exh-*' kinds are exhaustive"""
+    import itertools
+    n = pick(4, 5)
+    for k in range(n + 1):
+        for t in itertools.product(ALPHA_S, repeat=k):
+            yield "exh-str", "".join(t)
+    for k in range(n + 1):
+        for t in itertools.product(ALPHA_B, repeat=k):
+            yield "exh-bytes", bytes(t)
+    # width boundaries of the pretty printer (100 columns) and of the newline threshold (5)
+    for w in range(88, 108):
+        for v in ("x" * w, "x" * (w - 1) + "'", "x" * (w - 2) + "'\"", "x" * w + "\n", ("word " * 40)[:w], ("w " * 80)[:w],
+                  " " * w, "x" * w + " y", ("ab\n" * 4)[:-1] + "x" * w, "\n" * 4 + "x" * w, "x" * w + "\r\nz", "x" * w + "\x85",
+                  " ".join(["x" * (w // 2)] * 3), "x" * w + "\x0b\x0c\x1c\x1d\x1e" + "y" * w, "\xe9" * w, "\x00" * (w // 4),
+                  ("word  \xa0" * 30)[:w + 40], "x" * (w - 4) + "\x7f", "\U0001F600" * (w // 2) + " " + "z" * w):
+            yield "width", v
+        for v in (b"x" * w, b"\xff" * (w // 4), b"\xff" * (w // 4) + b"a", b"x" * (w - 4) + b"'", b"ab\x00" * (w // 3), b"'\"" * (w // 2),
+                  b"\n" * 4 + b"x" * w, b"x" * w + b"\n\n\n\n\n", bytes(range(256))[:w], b"\x00" * w, b"x" * 199 + b"\xff" * (w - 88)):
+            yield "width", v
+    for k in range(0, 9):
+        for tail in ("", "t", "\n", "'", "\\"):
+            yield "newlines", "a\n" * k + tail
+            yield "newlines", ("b\n" * k + tail).encode()
+            yield "newlines", "l'\"\\\n" * k + "x" * 120 + tail
+    for d in (0, 1, -1, 9, 10, -10, 42, -42, 127, 128, 255, 256, 65535, 65536, 2 ** 31 - 1, 2 ** 31, -2 ** 31, 2 ** 32 - 1, 2 ** 32, 2 ** 63 - 1,
+              2 ** 63, -2 ** 63, 2 ** 64 - 1, 2 ** 64, 10 ** 19, -10 ** 20 + 1, 10 ** 40):
+        yield "int", d
+    words = ["word", "x", "it's", '"q"', "\\", "tab\t", "\xe9", "\U0001F600", "\x00", "\xa0", " ", " ", "  ", "-", "a-b-c", "<1,2>", "[[X]]", "#", "$",
+             "\x7f", "\x85", "\ud800", "\r", "b'", "\uffff", "\U0010ffff", "=|", "\\n"]
+    for _ in range(pick(700, 6000)):
+        k = rng.choice([0, 1, 2, 5, 12, 20, 30, 60, 100, 200, 400])
+        nl = rng.choice([0, 0, 0, 1, 3, 4, 5, 6, 9, 40])
+        parts = [rng.choice(words + ["x" * rng.randrange(1, 130)]) + rng.choice(["", " ", " ", "  "]) for _ in range(k)]
+        for _ in range(nl):
+            parts.insert(rng.randrange(len(parts) + 1), "\n")
+        v = "".join(parts)
+        r = rng.random()
+        if r < 0.45:
+            yield "random", v
+        elif r < 0.7:
+            yield "random", v.encode("utf8", "surrogatepass")[:1400]
+        elif r < 0.9:
+            yield "random", bytes(rng.randrange(256) for _ in range(rng.choice([0, 1, 4, 5, 8, 23, 24, 25, 26, 60, 97, 100, 101, 300]))) + b"\n" * nl
+        else:
+            yield "random", rng.randrange(-2 ** 70, 2 ** 70) >> rng.choice([0, 8, 40, 64])
+
+
+def value_case(v):
+    if isinstance(v, str):
+        return {"kind": "str", "cps": [ord(c) for c in v]}
+    if isinstance(v, bytes):
+        return {"kind": "bytes", "hex": v.hex()}
+    return {"kind": "int", "dec": str(v)}
+
+
+def case_value(c):
+    if c["kind"] == "str":
+        return "".join(chr(x) for x in c["cps"])
+    if c["kind"] == "bytes":
+        return bytes.fromhex(c["hex"])
+    return int(c["dec"])
+
+
+def literal_roundtrip_fails(im, v, ser: bool):
+    """the value-level clause on the implementation: None, or what goes wrong"""
+    try:
+        lines = real_lines(im, v, ser)
+    except Exception as e:
+        return "formatter raises " + type(e).__name__
+    r = lines_ok(lines)
+    if r:
+        return r
+    for l in lines:
+        if l.strip()[0] in "[#":
+            return "line starts with a bracket or a hash"
+    joined = "".join(l.strip() for l in lines)
+    if re.match(r"\[\[(\w+)]]", joined) or joined.startswith("<") or re.match(r"\A\w+-\w+-.*", joined):
+        return "taken for a replacement / vector / uuid"
+    st, got = real_literal_eval(joined)
+    if st != "ok":
+        return "literal_eval raises " + got
+    if type(got) is not (bytes if isinstance(v, bytes) else type(v)) or got != v:
+        return "reads back to another value"
+    return None
+
+
+def suite_literals(ctx, vals):
+    im = impl()
+    res = CorrResult(suite="python literals: extracted renderer/reader vs repr, HippoPrettyPrinter, ast.literal_eval",
+                     rule="printable oracle = str.isprintable over all code points (its only assumed fact, no printable surrogate, is checked); "
+                          "(a) code points in blocks of 256 (thorough: all; quick: the BMP, plane boundaries, every 16th block, a seeded sample) and every byte: model repr == repr; (b) values: every str over %d characters "
+                          "(both quotes, backslash, newline, NUL, 0x7f, 0x80, 0xff, a non-BMP character, a letter, a space) and every bytes over "
+                          "%d byte values up to length %d (exhaustive), width boundaries 88..107 columns, 0..8 newlines around the threshold, "
+                          "boundary ints, random long values (0..40 newlines, up to 1400 bytes); for each value and both _format_var "
+                          "choices: model lines == HippoPrettyPrinter(width=100).pformat / repr byte for byte, model read_lit of the stripped "
+                          "concatenation == ast.literal_eval == the value; (c) reader on mutated literal texts: model Some v => literal_eval "
+                          "gives v; model None => literal_eval raises, gives another type, or the text is outside the modelled fragment (counted). "
+                          "non-trivial = value needing an escape, several lines, or a mutated text" % (len(ALPHA_S), len(ALPHA_B), ctx.pick(4, 5)))
+    dist = collections.Counter()
+    rngs = printable_ranges()
+    # the hypothesis of the theorems on the printable oracle
+    for i in range(0, len(rngs), 2):
+        if rngs[i] < 0xE000 and rngs[i + 1] > 0xD800:
+            res.disagreements.append({"what": "a surrogate code point is printable: hypothesis of the literal theorems fails", "range": rngs[i:i + 2]})
+    lines = ["I " + " ".join(map(str, rngs))]
+    # (a) code point sweep
+    blocks = []
+    for lo in range(0, 0x110000, 256):
+        # quick tier: the whole BMP, both ends of every plane, every 16th block in between and a seeded sample
+        if ctx.thorough or lo < 0x10000 or (lo & 0xFFFF) in (0, 0xFF00) or (lo >> 8) % 16 == 0 or ctx.rng.random() < 0.03:
+            blocks.append("".join(chr(c) for c in range(lo, lo + 256)))
+    blocks.append(bytes(range(256)))
+    blocks += [bytes([c]) for c in range(256)]
+    for b in blocks:
+        lines.append("R 1 " + enc_val(b))
+    # (b) values
+    for kind, v in vals:
+        dist[kind] += 1
+        sers = (0,) if kind.startswith("exh") or isinstance(v, int) else (0, 1)
+        for ser in sers:
+            lines.append("R %d %s" % (ser, enc_val(v)))
+    out = ctx.run_driver(lines)
+    if out[0] != "OK":
+        res.disagreements.append({"what": "driver did not accept the printable table", "got": out[0][:80]})
+    pos = 1
+    for b in blocks:
+        want = show_s(repr(b))
+        if out[pos] != want:
+            res.disagreements.append({"what": "repr of a code point block differs", "first": (ord(b[0]) if isinstance(b, str) else b[0]),
+                                      "type": type(b).__name__, "model": out[pos][:120], "impl": want[:120]})
+        pos += 1
+    res.evaluations += len(blocks)
+    reads, expect = [], []
+    nontriv = 0
+    render_div = []
+    for kind, v in vals:
+        sers = (0,) if kind.startswith("exh") or isinstance(v, int) else (0, 1)
+        for ser in sers:
+            mod = out[pos]
+            pos += 1
+            try:
+                rl = real_lines(im, v, bool(ser))
+                want = "|".join(show_s(l) for l in rl)
+            except Exception as e:
+                rl, want = None, "EXC:" + type(e).__name__
+            if mod != want:
+                render_div.append((len(mod), len(render_div), {"what": "rendered lines differ", "value": value_case(v), "ser": bool(ser), "model": mod[:300],
+                                                               "impl": want[:300], "class": "literal-render-divergence", "model_lines": mod}))
+                dist["render-divergence"] += 1
+            bad = literal_roundtrip_fails(im, v, bool(ser))
+            if bad:
+                dist["roundtrip-violation"] += 1
+                if len(res.impl_violations) < 5 or len(enc_val(v)) < min(len(enc_val(case_value(x["value"]))) for x in res.impl_violations):
+                    res.impl_violations.insert(0, {"clause": "the text shown for a str/bytes/int value reads back to it: " + bad, "class": "literal-roundtrip",
+                                                   "value": value_case(v), "ser": bool(ser)})
+            if rl is not None:
+                joined = "".join(l.strip() for l in rl)
+                reads.append("E " + " ".join(str(ord(c)) for c in joined))
+                expect.append((joined, v))
+                if len(rl) > 1 or "\\" in joined:
+                    nontriv += 1
+    res.disagreements += [d for _, _, d in sorted(render_div, key=lambda t: t[:2])[:40]]     # smallest first
+    # (c) mutated literal texts
+    rng = ctx.rng
+    pool = [j for j, _ in expect if len(j) < 400]
+    mchars = list("'\"\\bBurRfx0189aAnN()# \t-+_.,:jeE{}[]") + ["\0", "\r", "\n", "\x0c", "\xe9", "\ud800", "\U0001F600", "\x0b", "\xa0", "\\x", "\\u", "\\U", "\\N{", "\\0",
+                                                              "'" * 3, '"' * 3]
+    hand = ["", " ", "1", " 1 ", "\t7\t", "(1)", "((2))", "( 3 )", "(", ")", "()", "(1,)", "1,", "-1", "- 1", "-(1)", "--1", "+1", "-", "00", "007", "0", "-0", "1_0", "0x10", "0b1", "0o7",
+            "1.0", "1e3", "1j", "1 # c", "1#", "1 #\0", "1 # \ud800", "# only", "'a' 'b'", "'a'\t\"b\"", "'a' b'c'", "b'a' 'c'", "b'a' B\"c\"", "'a'b'c'", "u'a'", "r'a'", "rb'a'", "f'a'",
+            "'" * 3 + "a" + "'" * 3, "'" * 4 + "a'", "'a" + "'" * 4 + "b'", "''", "'' ''", "'" * 4, "'" * 3, "'a", "a'", "'a\\'", "'\\x4'", "'\\x4g'", "'\\u12'", "'\\U00110000'", "'\\U0010ffff'",
+            "'\\ud800'", "b'\\u0041'", "b'\\xff'", "b'\xff'", "b'\x7f'", "'\\101'", "'\\0'", "'\\N{DASH}'", "'\\q'", "'\\a\\b\\f\\v'", "True", "None", "'a' if 1 else 'b'", "'a'+'b'", "'a'*2",
+            "[1]", "{1}", "'a' # ' c", "(" * 200 + "1" + ")" * 200, "(" * 201 + "1" + ")" * 201, "9" * 4300, "9" * 4301, "-" + "9" * 4301, "0" * 4301, "('a'\r'b')", "1\x0c",
+            "'a'\x0c'b'", "\ufeff1", "1;", "'a';"]
+    muts = list(hand)
+    for _ in range(ctx.pick(5000, 40000)):
+        t = list(rng.choice(pool)) if pool else list("'a'")
+        for _ in range(rng.choice((1, 1, 1, 2, 3))):
+            p = rng.randrange(len(t) + 1)
+            op = rng.random()
+            if op < 0.4:
+                t[p:p] = list(rng.choice(mchars))
+            elif op < 0.65 and t:
+                del t[min(p, len(t) - 1)]
+            elif op < 0.85 and t:
+                t[min(p, len(t) - 1)] = rng.choice(mchars)[0]
+            elif op < 0.93:
+                t = t[:p]
+            else:
+                q = rng.randrange(len(t) + 1)
+                t[p:p] = t[min(p, q):max(p, q)][:40]
+        muts.append("".join(t))
+    mseen = set()
+    muts = [m for m in muts if not (m in mseen or mseen.add(m))]
+    for m in muts:
+        reads.append("E " + " ".join(str(ord(c)) for c in m))
+    rout = ctx.run_driver(reads)
+    for (joined, v), o in zip(expect, rout):
+        if o != show_cval(v):
+            if len(res.disagreements) < 40:
+                res.disagreements.append({"what": "model reader does not return the value from the implementation's text", "value": value_case(v),
+                                          "text": joined[:200], "model": o[:200], "class": "literal-read-divergence"})
+            dist["read-divergence"] += 1
+    for m, o in zip(muts, rout[len(expect):]):
+        st, got = real_literal_eval(m)
+        indom = st == "ok" and (type(got) in (str, int) or isinstance(got, bytes))
+        if o == "NONE":
+            if indom:
+                why = outside_fragment(m)
+                if why is None:
+                    res.disagreements.append({"what": "model reader refuses a text inside its fragment that literal_eval reads", "text": m[:200],
+                                              "impl": show_cval(got)[:200], "class": "literal-read-divergence"})
+                else:
+                    dist["mutated:outside-fragment:" + why.split(":")[0]] += 1
+            else:
+                dist["mutated:both-refuse" if st != "ok" else "mutated:other-type"] += 1
+        else:
+            if not indom or show_cval(got) != o:
+                res.disagreements.append({"what": "model reader accepts a text literal_eval reads differently", "text": m[:200], "model": o[:200],
+                                          "impl": (show_cval(got)[:200] if st == "ok" else "EXC:" + got), "class": "literal-read-divergence"})
+            else:
+                dist["mutated:both-read"] += 1
+    res.evaluations += (pos - 1 - len(blocks)) + len(reads)
+    res.distinct_nontrivial = nontriv + len(muts)
+    res.distribution = dict(dist)
+    res.samples = [{"value": value_case(v), "lines": real_lines(im, v, False)[:3]} for _, v in vals[200:203]] + [{"mutated": m[:80]} for m in muts[150:153]]
+    ctx.notes.append("literal suite: %d printable ranges; %d values (%d exhaustive up to length %d); %d mutated literal texts"
+                     % (len(rngs) // 2, len(vals), dist["exh-str"] + dist["exh-bytes"], ctx.pick(4, 5), len(muts)))
+    return res
+
+
+# ---- concrete messages: to_human / from_human with the concrete renderer and reader
+
+class _FloatTok:
+    def __init__(self, src):
+        simple_float(src)
+        self.src = src
+
+
+class _FakeSerC:
+    def __init__(self, key):
+        self.key = key
+
+    def serialize(self, block, val):
+        if self.key[2].startswith("Z"):
+            raise ValueError("packer raises")
+        return Sym("O:5:" + show_s(show_cval(val)))
+
+
+class _FakeSerTableC:
+    def get(self, key, default=None):
+        if key[2].startswith("Q"):
+            return None
+        return _FakeSerC(key)
+
+
+def real_parse_concrete(text: str, safe: bool):
+    """real from_human_string with the real ast.literal_eval restricted to str/bytes/int results; the other oracles symbolic.
+    Returns (canonical outcome, literal texts read, exception name)."""
+    im = impl()
+    mf = im.mf
+    evals, lits = [], []
+
+    class AstShim:
+        @staticmethod
+        def literal_eval(s):
+            lits.append(s)
+            st, v = real_literal_eval(s)
+            if st != "ok":
+                raise ValueError(v)
+            if not (type(v) in (str, int) or isinstance(v, bytes)):
+                raise ValueError("outside the modelled kinds")
+            return v
+
+    class DtShim:
+        @staticmethod
+        def UUID(s):
+            return Sym("O:2:" + show_s(s))
+
+    class SeShim:
+        SUBFIELD_SERIALIZERS = _FakeSerTableC()
+
+    def fake_subfield_eval(s, globals_=None, locals_=None):
+        evals.append(s)
+        return Sym("O:4:" + show_s(s))
+
+    saved = {k: mf.__dict__.get(k, _MISSING) for k in ("ast", "datatypes", "se", "subfield_eval", "float")}
+    mf.ast, mf.datatypes, mf.se = AstShim, DtShim, SeShim
+    mf.subfield_eval = fake_subfield_eval
+    mf.float = _FloatTok
+    try:
+        repl = {k: Sym("O:3:" + show_s(k)) for k in KNOWN_REPL}
+        try:
+            m = im.H.from_human_string(text, replacements=repl, env={}, safe=safe)
+        except BaseException as e:  # noqa
+            if isinstance(e, (KeyboardInterrupt, SystemExit)):
+                raise
+            return "ERR|" + ",".join(show_s(s) for s in evals), lits, type(e).__name__
+        if m is None:
+            return "NOMSG", lits, None
+        return canon_cmsg(m, evals), lits, None
+    finally:
+        for k, v in saved.items():
+            if v is _MISSING:
+                mf.__dict__.pop(k, None)
+            else:
+                setattr(mf, k, v)
+
+
+def canon_cmsg(m, evals=()):
+    blocks = []
+    for bn, bl in m.blocks.items():
+        for b in bl:
+            blocks.append("%s[%s]" % (show_s(bn), ";".join("%s=%s" % (show_s(k), show_cval(v)) for k, v in b.items())))
+    return "MSG|%s|%s|%d|%s|%s" % (m.direction.name, show_s(m.name), int(m.send_flags), " ".join(blocks), ",".join(show_s(s) for s in evals))
+
+
+def enc_cmsg(im, m, comments):
+    out = [1 if m.direction.name == "IN" else 0] + enc_s(m.name) + [int(m.send_flags), len(comments)]
+    for c in comments:
+        out += enc_s(c)
+    out.append(len(m.blocks))
+    for bn, bl in m.blocks.items():
+        out += enc_s(bn) + enc_s("") + [len(bl)]
+        for b in bl:
+            out.append(len(b.vars))
+            for k, v in b.vars.items():
+                ser = 1 if im.se.SUBFIELD_SERIALIZERS.get((m.name, bn, k)) else 0
+                out += enc_s(k) + [ser]
+                if isinstance(v, str):
+                    out += [0] + enc_s(v)
+                elif isinstance(v, bytes):
+                    out += [1, len(v)] + list(v)
+                else:
+                    bits = [int(c) for c in bin(abs(v))[2:]]
+                    out += [2, 1 if v < 0 else 0, len(bits)] + bits
+    return "M " + " ".join(map(str, out))
+
+
+def gen_cmsgs(ctx, values):
+    """messages built directly (not decoded from the wire) whose variables are str / bytes / int values"""
+    from hippolyzer.lib.base.message.message import Message, Block
+    from hippolyzer.lib.base.network.transport import Direction
+    im = impl()
+    rng = ctx.rng
+    by_msg = collections.defaultdict(list)
+    for (mn, bn, vn) in sorted(im.se.SUBFIELD_SERIALIZERS):
+        by_msg[mn].append((bn, vn))
+    real_names = sorted(by_msg)
+    vnames = ["Test1", "Data", "Num", "x", "_y", "A1", "Name", "Message", "ID", "Zed", "Q", "k9", "Flags", "b", "u"]
+    # the framing model reverses the accumulated value text with the quadratic List.rev at every continuation line:
+    # values whose rendered text is long are exercised by the value-level suite only
+    pool = [v for k, v in values if not k.startswith("exh") and sum(map(len, real_lines(im, v, False))) <= 600]
+    pool += [v for k, v in values if k.startswith("exh")][::37]
+    out = []
+    for i in range(ctx.pick(260, 1500)):
+        if rng.random() < 0.5:
+            mn = rng.choice(real_names)
+            keys = by_msg[mn]
+        else:
+            mn = rng.choice(["TestMessage", "M", "Chat_1", "x9"])
+            keys = []
+        m = Message(mn, direction=rng.choice([Direction.OUT, Direction.IN]))
+        m.send_flags = rng.choice([0, 0, 0x40, 0x80, 0xC0, 0x20, 0x01, 0x47, 1023])
+        if rng.random() < 0.3:
+            m.packet_id = rng.randrange(1, 100000)
+        bnames = list(dict.fromkeys([bn for bn, _ in keys] + rng.sample(["TestBlock1", "B", "Data", "NeighborBlock", "b_2"], rng.randrange(0, 3))))
+        rng.shuffle(bnames)
+        for bn in bnames[:rng.randrange(1, 4)]:
+            cnt = rng.choice([0, 1, 1, 1, 2, 3])
+            if cnt == 0:
+                m.create_block_list(bn)
+            for _ in range(cnt):
+                names = [vn for b2, vn in keys if b2 == bn] + rng.sample(vnames, rng.randrange(0, 4))
+                names = list(dict.fromkeys(names))
+                rng.shuffle(names)
+                kw = {}
+                for vn in names[:rng.randrange(0, 5)]:
+                    v = rng.choice(pool)
+                    if rng.random() < 0.2:
+                        v = rng.choice(["", b"", 0, "a\nb\nc\nd\ne\nf", b"\x00", "'", '"', "\\", "x = 1 \\", "[B]", "# c", "=$ evil()", "ab-cd-ef", "<1,2>", "[[X]]"])
+                    kw[vn] = v
+                m.add_block(Block(bn, **kw))
+        out.append(m)
+    return out
+
+
+def cmsg_case(m):
+    return {"class": "concrete-message-roundtrip", "name": m.name, "direction": m.direction.name, "flags": int(m.send_flags),
+            "blocks": [[bn, [[[k, value_case(v)] for k, v in b.items()] for b in bl]] for bn, bl in m.blocks.items()]}
+
+
+def case_cmsg(c):
+    from hippolyzer.lib.base.message.message import Message, Block
+    from hippolyzer.lib.base.network.transport import Direction
+    m = Message(c["name"], direction=Direction[c["direction"]])
+    m.send_flags = c["flags"]
+    for bn, bl in c["blocks"]:
+        if not bl:
+            m.create_block_list(bn)
+        for b in bl:
+            m.add_block(Block(bn, **{k: case_value(v) for k, v in b}))
+    return m
+
+
+def cmsg_roundtrip_fails(im, m):
+    """C11 on a directly built message with str/bytes/int values, plain form: (None or the failing clause, text)"""
+    try:
+        txt = str(im.H.to_human_string(m, beautify=False))
+    except Exception as e:
+        return "to_human_string raises " + type(e).__name__, None
+    try:
+        m2 = im.H.from_human_string(txt, safe=True)
+    except Exception as e:
+        return "from_human_string(to_human_string(m), safe=True) raises " + type(e).__name__, txt
+    if m2 is None or canon_cmsg(m2) != canon_cmsg(m):
+        return "parsed message differs from the message shown", txt
+    return None, txt
+
+
+def suite_cmsg(ctx, values):
+    im = impl()
+    res = CorrResult(suite="concrete messages: extracted to_human/from_human with the literal model vs to_human_string/from_human_string",
+                     rule="messages built directly (real names with registered subfield serializers, and synthetic names; IN/OUT, flags, packet "
+                          "ids, 0..3 blocks per list incl. empty lists, variables holding str/bytes/int values from the literal suite plus values "
+                          "that look like statements, block headers, comments, uuids, vectors, replacement tokens) shown with beautify off: "
+                          "(i) extracted to_human with the concrete renderer == to_human_string; (ii) extracted from_human with the concrete "
+                          "reader returns the message; (iii) from_human_string(safe=True) returns the same values (the theorem's claim on the "
+                          "code); (iv) on seeded mutations of these texts the extracted parser and the real one (real ast.literal_eval, other "
+                          "oracles symbolic) agree on error/none/message and on every value. non-trivial = message with a multi-line value or a mutated text")
+    dist = collections.Counter()
+    msgs = gen_cmsgs(ctx, values)
+    skip = set()
+    lines, texts = ["I " + " ".join(map(str, printable_ranges()))], []
+    for m in msgs:
+        comments = []
+        if m.packet_id is not None:
+            comments.append("# ID: %s%s%s" % (m.packet_id, ", DROPPED" if m.dropped else "", ", SYNTHETIC" if m.synthetic else ""))
+        bad, txt = cmsg_roundtrip_fails(im, m)
+        if txt is not None and max(map(len, txt.split("\n"))) > 1500:
+            # the framing model strips lines with the quadratic list reversal; very long physical lines are left to the value-level suite
+            dist["skipped-long-line"] += 1
+            skip.add(id(m))
+            continue
+        lines.append(enc_cmsg(im, m, comments))
+        texts.append(txt)
+        if bad:
+            dist["violation"] += 1
+            if len(res.impl_violations) < 5:
+                res.impl_violations.append(dict(cmsg_case(m), clause=bad))
+    msgs = [m for m in msgs if id(m) not in skip]
+    out = ctx.run_driver(lines)[1:]
+    plines = []
+    nontriv = 0
+    for m, txt, o in zip(msgs, texts, out):
+        if txt is None:
+            continue
+        if o != show_s(txt):
+            res.disagreements.append(dict(cmsg_case(m), what="model to_human differs from to_human_string", impl_text=txt[:300], model_text=o[:200], model_full=o))
+        if " \\\n" in txt:
+            nontriv += 1
+        plines.append("Q 1 " + " ".join(str(ord(c)) for c in txt))
+    # mutated texts
+    rng = ctx.rng
+    good = [t for t in texts if t is not None and len(t) < 3000]
+    muts = []
+    mchars = list("'\"\\\n\n  #[]=|$<>-,()b01a") + [" \\\n", "\\\n    ", "=$ ", "=| ", "[[X]]", "'\n'", "\x85", "\xa0", "\r"]
+    for _ in range(ctx.pick(2000, 15000)):
+        t = list(rng.choice(good)) if good else list("OUT M\n[B]\n  a = 1")
+        for _ in range(rng.choice((1, 1, 2, 3))):
+            p = rng.randrange(len(t) + 1)
+            op = rng.random()
+            if op < 0.35:
+                t[p:p] = list(rng.choice(mchars))
+            elif op < 0.55 and t:
+                del t[min(p, len(t) - 1)]
+            elif op < 0.7 and t:
+                t[min(p, len(t) - 1)] = rng.choice(mchars)[0]
+            elif op < 0.85:
+                ls = "".join(t).split("\n")
+                i = rng.randrange(len(ls))
+                if rng.random() < 0.5:
+                    ls.insert(rng.randrange(len(ls) + 1), ls[i])
+                elif len(ls) > 1:
+                    del ls[i]
+                t = list("\n".join(ls))
+            else:
+                t = t[:p]
+        muts.append("".join(t))
+    mseen = set()
+    muts = [m for m in muts if not (m in mseen or mseen.add(m)) and not check_alphabet({ord(c) for c in m if ord(c) >= 128})]
+    for t in muts:
+        cps = " ".join(str(ord(c)) for c in t)
+        plines.append("Q 1 " + cps)
+        plines.append("Q 0 " + cps)
+    pout = ctx.run_driver(plines)
+    k = 0
+    for m, txt in zip(msgs, texts):
+        if txt is None:
+            continue
+        if pout[k] != canon_cmsg(m):
+            res.disagreements.append(dict(cmsg_case(m), what="model from_human does not return the message from the implementation's text", model=pout[k][:300]))
+        k += 1
+    for t in muts:
+        for safe in (True, False):
+            mo = pout[k]
+            k += 1
+            ro, lits, exc = real_parse_concrete(t, safe)
+            dist[("safe:" if safe else "unsafe:") + ro.split("|")[0]] += 1
+            if mo != ro:
+                why = None
+                if mo.startswith("ERR"):
+                    for l in lits:
+                        st, got = real_literal_eval(l)
+                        if st == "ok":
+                            why = outside_fragment(l) or why
+                if why:
+                    dist["mutated:outside-fragment"] += 1
+                else:
+                    res.disagreements.append({"what": "parsers differ on a mutated text", "text": t[:400], "safe": safe, "model": mo[:300], "impl": ro[:300], "impl_exc": exc})
+    res.evaluations = len(lines) + len(plines)
+    res.distinct_nontrivial = nontriv + len(muts)
+    res.distribution = dict(dist, messages=len(msgs), mutated=len(muts))
+    res.samples = [{"text": t[:200]} for t in good[3:6]]
+    return res
+
+
+def generate(ctx):
+    """(G) the printable oracle of the literal theorems as a table regenerated from the running interpreter"""
+    import sys
+    import unicodedata
+    rngs = printable_ranges()
+    pairs = ["(%d, %d)" % (rngs[i], rngs[i + 1]) for i in range(0, len(rngs), 2)]
+    body = ["(* GENERATED by harness/props/c11.py:generate on every run - do not edit.",
+            "   str.isprintable of CPython %s (unicodedata %s) as half-open code point ranges. *)"
+            % (sys.version.split()[0], unicodedata.unidata_version),
+            "From Coq Require Import NArith List Bool.",
+            "From HV Require Import Text.HumanText Text.PyLiteral Text.PyLiteralProofs.",
+            "Import ListNotations.", "Open Scope N_scope.", "",
+            "Definition py_printable_ranges : list (N * N) :=", "  [ " + ";\n    ".join(pairs) + " ].", "",
+            "Definition py_printable (c : N) : bool := in_ranges py_printable_ranges c.", "",
+            "(* generated obligation: no range of the live table meets the surrogate block *)",
+            "Lemma C11_gen_ranges_nosur : ranges_nosur py_printable_ranges = true.",
+            "Proof. vm_compute. reflexivity. Qed.", "",
+            "Lemma C11_gen_printable_nosur : forall c, py_printable c = true -> is_sur c = false.",
+            "Proof. exact (in_ranges_nosur py_printable_ranges C11_gen_ranges_nosur). Qed.", ""]
+    gen = os.path.join(VERIF, "coq", "gen")
+    os.makedirs(gen, exist_ok=True)
+    with open(os.path.join(gen, "C11_printable_gen.v"), "w") as f:
+        f.write("\n".join(body))
+    ctx.notes.append("printable table: %d ranges from str.isprintable (CPython %s, Unicode %s)"
+                     % (len(pairs), sys.version.split()[0], unicodedata.unidata_version))
+    return [{"name": "gen/C11_printable_gen.v:C11_gen_ranges_nosur",
+             "detail": "live str.isprintable table (%d ranges): no printable surrogate, by vm_compute; instantiates the literal theorems "
+                       "without any oracle premise (C11_text_roundtrip_cpython)" % len(pairs)}]
+
+
+def literal_values(ctx):
+    seen, vals = set(), []
+    for kind, v in gen_values(ctx.rng, ctx.pick):
+        key = (type(v).__name__, v)
+        if key not in seen:
+            seen.add(key)
+            vals.append((kind, v))
+    return vals
+
+
 def correspond(ctx):
     seeds = []
     r1 = suite_classes(ctx)
     r3 = suite_wire(ctx, seeds)
     r2 = suite_parser(ctx, seeds)
-    return [r1, r2, r3]
+    vals = literal_values(ctx)
+    r4 = suite_literals(ctx, vals)
+    r5 = suite_cmsg(ctx, vals)
+    ctx.notes.append("proved (Qed, closed): framing round trip under var_ok (C11_text_roundtrip); safe mode never evaluates; for str/bytes/int values "
+                     "in plain form the per-value hypotheses themselves (C11_literal_value_roundtrip, C11_repr_str/bytes_reads_back) and the "
+                     "hypothesis-free round trip C11_text_roundtrip_concrete; C11_text_roundtrip_mixed keeps var_ok only for the other variables")
+    ctx.notes.append("tied: framing model vs real parser/formatter (parser, wire suites); literal renderer/reader model vs repr, "
+                     "HippoPrettyPrinter(width=100).pformat and ast.literal_eval byte for byte (literals suite); the instantiated "
+                     "to_human/from_human vs to_human_string/from_human_string on directly built messages and mutated texts (concrete messages suite)")
+    ctx.notes.append("oracle-only: packed (=|) forms and their subfield serializers, uuid/vector/float values, replacement tokens (var_ok checked per "
+                     "generated value by the wire suite); str.isprintable table (premise: no printable surrogate, checked exhaustively)")
+    return [r1, r2, r3, r4, r5]
 
 
 # --------------------------------------------------------------------------- search / replay
@@ -1102,8 +1828,17 @@ def search(ctx, hints):
         v = h.get("impl_violation")
         if v and "datagram" in v:
             return _shrink(im, v)
-        if v and "text" in v:
+        if v and ("text" in v or "value" in v or "blocks" in v):
             return v
+    for h in hints:
+        # the implementation's text for a concrete value / message differs from the verified model's: a concrete input
+        d = h.get("disagreement")
+        if d and d.get("class") == "literal-render-divergence":
+            return dict(d, clause="the text shown for this value is not the one the verified renderer model produces")
+        if d and d.get("class") == "concrete-message-roundtrip" and "model_full" in d:
+            return dict(d, clause="to_human_string output is not the one the verified formatter model produces")
+        if d and d.get("class") == "literal-read-divergence" and "text" in d and "model" in d:
+            return dict(d, clause="ast.literal_eval and the verified reader model differ on this text")
     for kind, dgx in wire_cases(ctx):
         if dgx is None:
             continue
@@ -1120,6 +1855,31 @@ def search(ctx, hints):
 
 def replay(ctx, case):
     im = impl()
+    cls = case.get("class")
+    if cls == "literal-roundtrip":
+        bad = literal_roundtrip_fails(im, case_value(case["value"]), bool(case.get("ser")))
+        return (bad is not None), (bad or "the value reads back")
+    if cls == "literal-render-divergence":
+        v = case_value(case["value"])
+        try:
+            now = "|".join(show_s(l) for l in real_lines(im, v, bool(case.get("ser"))))
+        except Exception as e:
+            now = "EXC:" + type(e).__name__
+        return now != case["model_lines"], {"impl_now": now[:300], "model": case["model_lines"][:300]}
+    if cls == "concrete-message-roundtrip":
+        m = case_cmsg(case)
+        bad, txt = cmsg_roundtrip_fails(im, m)
+        if bad:
+            return True, bad
+        if "model_full" in case:
+            return show_s(txt) != case["model_full"], "implementation text %s the model text" % ("differs from" if show_s(txt) != case["model_full"] else "equals")
+        return False, "round trip holds"
+    if cls == "literal-read-divergence":
+        st, got = real_literal_eval(case["text"])
+        now = show_cval(got)[:200] if st == "ok" else "EXC:" + got
+        if "model" not in case:
+            return now != case.get("impl"), {"impl_now": now}
+        return now != case["model"], {"impl_now": now, "model": case["model"]}
     if "datagram" in case:
         r = check_roundtrip(im, case["datagram"], case.get("beautify", False), case.get("repl", False), case.get("tmpl", False))
         if r["status"] == "violation":
